@@ -360,6 +360,44 @@ let admission (nreq : int) (creator_dead : bool) (open_err : int) (outs : int li
   else if List.for_all aout_ok rets then "OK"
   else "PROP a request with a live context over a healthy datastore was refused its iterator"
 
+(* class S: clones of one shared iterator.  ( 5 layer nitems ( op* ) ( client* ) hung )
+   op = ( 0 ok innerStopped ) clone | ( 1 c innerStopped ) Stop of consumer c;
+   client = ( done got prefixOK afterOK stops errs ).
+   Predicate: every consumer received a prefix of the datastore's sequence, all of it if it was told
+   Done, and nothing after its own Stop.  Model (layer 0, timers never fire): the reference count of
+   Cache/CachedIterShared.v says the reader's iterator is still open after every operation. *)
+let shared_clones (layer : int) (nitems : int) (ops : value list) (clients : value list) (hung : int) : string =
+  let props = ref [] and diffs = ref [] in
+  List.iteri (fun i c -> match as_list c with
+    | [dn; got; pok; aok; _stops; _errs] ->
+      if not (as_bool pok) then props := Printf.sprintf "consumer %d received something that is not a prefix of the datastore's sequence" i :: !props
+      else if as_bool dn && as_int got <> nitems then
+        props := Printf.sprintf "consumer %d was told Done after %d of %d tuples" i (as_int got) nitems :: !props
+      else if not (as_bool aok) then
+        props := Printf.sprintf "consumer %d received a tuple after its own Stop" i :: !props
+    | _ -> diffs := "malformed consumer record" :: !diffs) clients;
+  let st = ref sh_init in
+  let nclones = ref 0 in
+  List.iteri (fun n o -> match as_list o with
+    | [I "0"; ok; inner] ->
+      let (st', got) = sh_step !st SClone in
+      st := st';
+      if got <> as_bool ok then diffs := Printf.sprintf "op %d: clone obtained model=%b impl=%b" n got (as_bool ok) :: !diffs;
+      if as_bool ok then incr nclones;
+      if layer = 0 && sh_inner_stopped !st <> as_bool inner then
+        diffs := Printf.sprintf "op %d (clone): underlying iterator stopped model=%b impl=%b" n (sh_inner_stopped !st) (as_bool inner) :: !diffs
+    | [I "1"; c; inner] ->
+      let (st', _) = sh_step !st (SStop (nat_of_int (as_int c))) in
+      st := st';
+      if layer = 0 && sh_inner_stopped !st <> as_bool inner then
+        diffs := Printf.sprintf "op %d (Stop of consumer %d): underlying iterator stopped model=%b impl=%b" n (as_int c) (sh_inner_stopped !st) (as_bool inner) :: !diffs
+    | _ -> diffs := "malformed operation record" :: !diffs) ops;
+  if hung <> 0 then diffs := "the underlying iterator was never stopped after the timers (timeout)" :: !diffs;
+  match !props, List.rev !diffs with
+  | p :: _, _ -> "PROP " ^ p
+  | [], d :: _ -> "DIFF " ^ d
+  | [], [] -> "OK"
+
 let f id vs =
   match vs with
   | [I "1"; variant; max; qs; ops; writes; leftover; hung] ->
@@ -367,6 +405,8 @@ let f id vs =
   | [I "2"; max; q; _script; clients; sd; second; writes; hung] ->
     stacked (as_int max) q (as_list clients) (as_bool sd) (as_list second) (as_list writes) (as_int hung)
   | I "3" :: _ -> "OK"
+  | [I "5"; layer; nitems; ops; clients; hung] ->
+    shared_clones (as_int layer) (as_int nitems) (as_list ops) (as_list clients) (as_int hung)
   | [I "4"; nreq; cd; oe; outs; hung] ->
     admission (as_int nreq) (as_bool cd) (as_int oe) (List.map as_int (as_list outs)) (as_int hung)
   | _ -> "DIFF malformed-record"
